@@ -21,12 +21,15 @@ let hex_of_string s =
     String.iter (fun c -> Buffer.add_string b (Printf.sprintf "%02x" (Char.code c))) s;
     Buffer.contents b end
 
-let entries_hex (l : (n * n) list) =
+let entries_hex0 (l : (n * n) list) =
   let b = Buffer.create 32 in
   List.iter (fun (i, p) ->
     let p = int_of_n p in
     Buffer.add_string b (Printf.sprintf "7f0000%02x%02x%02x" (2 + int_of_n i) (p lsr 8) (p land 255))) l;
   if Buffer.length b = 0 then "-" else Buffer.contents b
+
+let entries_hex_fwd = ref entries_hex0
+let entries_hex l = !entries_hex_fwd l
 
 let pay_str (l : n list) =
   if l = [] then "0:-" else
@@ -123,8 +126,19 @@ let parse_op (s : string) : op =
 
 let fx_of_env () =
   match Sys.getenv_opt "C20_FX" with
-  | Some s when String.length s = 4 -> { fx_up_nothrow = s.[0] = '1'; fx_pex_false = s.[1] = '1'; fx_drain = s.[2] = '1'; fx_port = s.[3] = '1' }
+  | Some s when String.length s = 4 -> { current_fixes with fx_up_nothrow = s.[0] = '1'; fx_pex_false = s.[1] = '1'; fx_drain = s.[2] = '1'; fx_port = s.[3] = '1' }
   | _ -> current_fixes
+
+(* the order policy probed on the compiled code by `harness c20 --probe-order` (C20_ORD=<addr><port>, 0 raw / 1 numeric) *)
+let fx_of_env () =
+  let fx = fx_of_env () in
+  match Sys.getenv_opt "C20_ORD" with
+  | Some s when String.length s = 2 -> { fx with fx_ord_addr = s.[0] = '1'; fx_ord_port = s.[1] = '1' }
+  | _ -> fx
+
+(* entries are compared as sets: one canonical order for printing *)
+let canon (l : (n * n) list) = List.sort (fun (i, p) (j, q) -> compare (int_of_n i, int_of_n p) (int_of_n j, int_of_n q)) l
+let () = entries_hex_fwd := (fun l -> entries_hex0 (canon l))
 
 let run_case header ops =
   let kv = List.filter_map (fun t -> match String.index_opt t '=' with
@@ -155,7 +169,7 @@ let show_reply r = match r with
 
 (* ---- unit-level PEX rounds: "U | A<lo>-<hi>:<base> R<lo>-<hi> x ..." *)
 let show_entries (l : (n * n) list) =
-  if l = [] then "." else String.concat "," (List.map (fun (i, p) -> string_of_n i ^ ":" ^ string_of_n p) l)
+  if l = [] then "." else String.concat "," (List.map (fun (i, p) -> string_of_n i ^ ":" ^ string_of_n p) (canon l))
 let show_pexbuf = function
   | None -> "-"
   | Some (a, r) -> show_entries a ^ "/" ^ show_entries r
@@ -188,7 +202,7 @@ let run_unit ops =
           d := set_conns !d (erase_conn (n_of_int k) !d.d_conns) !d.d_size_pex
         done
     | 'x' ->
-        (match do_peer_exchange !d with
+        (match do_peer_exchange (fx_of_env ()) !d with
          | DpeInternalError -> parts := "ERR:internal" :: !parts; raise Exit
          | DpeOk d' ->
              d := d';
@@ -232,6 +246,9 @@ let run_fetch header ops =
       | 'c' -> let (m, s) = fields (arg ()) in GConnect (idx (), m, s)
       | 'h' -> let (m, s) = fields (arg ()) in GHandshake (idx (), m, s)
       | 'j' -> GReject (idx (), z_of_string (arg ()))
+      | 'q' ->
+          let l = List.hd (String.split_on_char ':' (arg ())) in     (* ":split<k>" only changes the TCP segmentation *)
+          GAsk (idx (), List.map z_of_string (List.filter (fun x -> x <> "") (String.split_on_char ',' l)))
       | 'd' -> GClose (idx ())
       | 'p' ->
           (match String.split_on_char ':' (arg ()) with
@@ -255,16 +272,17 @@ let run_fetch header ops =
       match String.split_on_char ':' r with
       | [i; p] -> run (GRequest (n_of_string i, n_of_string p))
       | _ -> failwith "req") (String.split_on_char ',' reqs) in
-    let key o = match o with GQ (i, _, _) -> (int_of_n i, 0) | GInadmissible (i, _) -> (int_of_n i, 0) | GClosed i -> (int_of_n i, 1) in
+    let key o = match o with GQ (i, _, _) -> (int_of_n i, 0) | GInadmissible (i, _) -> (int_of_n i, 0) | GJ (i, _, _) -> (int_of_n i, 0) | GClosed i -> (int_of_n i, 1) in
     let all = List.stable_sort (fun a b -> compare (key a) (key b)) (outs @ routs) in
     let ev = String.concat "" (List.map (fun o -> match o with
       | GQ (i, id, p) -> Printf.sprintf "Q%d(id=%d,piece=%s) " (int_of_n i) (int_of_n id) (string_of_n p)
       | GInadmissible (i, p) -> Printf.sprintf "INADMISSIBLE%d(%s) " (int_of_n i) (string_of_n p)
+      | GJ (i, id, p) -> Printf.sprintf "J%d(id=%d,piece=%s) " (int_of_n i) (int_of_n id) (string_of_n p)
       | GClosed i -> Printf.sprintf "X%d " (int_of_n i)) all) in
     let s = !g in
     let sz = match s.g_size with Some n -> string_of_n n | None -> "1" in
     let (dn, file) = match s.g_done with Some d -> ("1", pay_str d) | None -> ("0", "-") in
-    let conns = String.concat "" (List.map (fun q -> Printf.sprintf " C%d[idm=%d rs=%d]" (int_of_n q.p_idx) (int_of_n q.p_idm) (b01 q.p_rs))
+    let conns = String.concat "" (List.map (fun q -> Printf.sprintf " C%d[idm=%d rs=%d rd=1 wr=0 pend=0]" (int_of_n q.p_idx) (int_of_n q.p_idm) (b01 q.p_rs))
       (List.sort (fun a b -> compare (int_of_n a.p_idx) (int_of_n b.p_idx)) s.g_peers)) in
     parts := (Printf.sprintf "%s => %s# F[size=%s chunk=%s done=%s have=%s file=%s]%s" op ev sz sz dn dn file conns) :: !parts) ops;
   (match !g.g_done with Some _ -> parts := "same=1" :: !parts | None -> ());
